@@ -130,6 +130,9 @@ def c10(tier, seed, wd, replay=None):
                 for proto in protos:
                     if (si + proto) % 2 == 0:
                         tr = PX.mechanism_record(PX.pool_of(w), proto)
+                        if "skip" in tr:
+                            run.extra["mechanism_binding_skipped"] = tr["skip"]
+                            continue
                         tr["id"] = len(tree_recs) + 1
                         meta[("tree", tr["id"])] = {"config": name, "consts": consts, "path": path, "variant": variant, "caching": caching, "protocol": proto}
                         tree_recs.append(tr)
